@@ -50,7 +50,22 @@ pub fn check(man: &Value, data: &[u8]) -> Value {
         for cs in r["sets"].as_array().cloned().unwrap_or_default() {
             let mut b = vec![(-1.0f64, 1.0f64); axes.len()];
             for c in cs.as_array().cloned().unwrap_or_default() {
-                let Some(ai) = axes.iter().position(|a| Some(a.tag.as_str()) == c["tag"].as_str()) else { continue };
+                let Some(ai) = axes.iter().position(|a| Some(a.tag.as_str()) == c["tag"].as_str()) else {
+                    // a condition on an axis that does not vary (a point axis, not in fvar): the font sits at that axis' one
+                    // design position, so the condition holds everywhere or nowhere
+                    if let Some(pa) = man["axes"].as_array().and_then(|l| l.iter().find(|a| a["tag"] == c["tag"])) {
+                        let pos = pa["map"].as_array().and_then(|m| m.first()).map(|m| f(&m[1])).unwrap_or(f(&pa["default"]));
+                        if (!c["min"].is_null() && pos < f(&c["min"])) || (!c["max"].is_null() && pos > f(&c["max"])) {
+                            if let Some(first) = b.first_mut() {
+                                *first = (2.0, -2.0);
+                            }
+                            *stats.entry("point_axis_conditions_excluding").or_default() += 1.0;
+                        } else {
+                            *stats.entry("point_axis_conditions_including").or_default() += 1.0;
+                        }
+                    }
+                    continue;
+                };
                 let lo = if c["min"].is_null() { -1.0 } else { axes[ai].normalize_design(f(&c["min"]) as f32 as f64) };
                 let hi = if c["max"].is_null() { 1.0 } else { axes[ai].normalize_design(f(&c["max"]) as f32 as f64) };
                 b[ai] = (b[ai].0.max(lo), b[ai].1.min(hi));
